@@ -87,7 +87,14 @@ func (o OneOfSchema[KeyType]) UnserializeType(data any) (result any, err error) 
 		}
 	}
 
-	discriminatorValue := reflectedValue.MapIndex(reflect.ValueOf(o.DiscriminatorFieldNameValue))
+	if keyKind := reflectedValue.Type().Key().Kind(); keyKind != reflect.String && keyKind != reflect.Interface {
+		// MapIndex panics when the discriminator field name is not assignable to the map's key type.
+		return result, &ConstraintError{
+			Message: fmt.Sprintf("Invalid key type for one-of: '%s'", reflectedValue.Type().Key()),
+		}
+	}
+	discriminatorValue := reflectedValue.MapIndex(
+		reflect.ValueOf(o.DiscriminatorFieldNameValue).Convert(stringKeyType(reflectedValue.Type().Key())))
 	if !discriminatorValue.IsValid() {
 		return result, &ConstraintError{
 			Message: fmt.Sprintf("Missing discriminator field '%s' in '%v'", o.DiscriminatorFieldNameValue, data),
@@ -368,7 +375,13 @@ func (o OneOfSchema[KeyType]) findUnderlyingType(data any) (KeyType, Object, err
 
 	var foundKey *KeyType
 	if reflectedType.Kind() == reflect.Map {
-		myKey, mySchemaObj, err := o.validateMap(data.(map[string]any))
+		dataMap, ok := data.(map[string]any)
+		if !ok {
+			return nilKey, nil, &ConstraintError{
+				Message: fmt.Sprintf("Invalid type for one-of type: '%T' expected map[string]any", data),
+			}
+		}
+		myKey, mySchemaObj, err := o.validateMap(dataMap)
 		if err != nil {
 			return nilKey, nil, err
 		}
@@ -436,4 +449,13 @@ func (o OneOfSchema[KeyType]) deleteDiscriminator(mymap map[string]any) map[stri
 		return cloneData
 	}
 	return mymap
+}
+
+// stringKeyType returns the type to convert a string map key to before looking it up in a map with the
+// given key type: the key type itself when it is defined from string, otherwise string (interface keys).
+func stringKeyType(keyType reflect.Type) reflect.Type {
+	if keyType.Kind() == reflect.String {
+		return keyType
+	}
+	return reflect.TypeOf("")
 }
